@@ -6,13 +6,19 @@
  type, reviews, trackings, withdrawals, council-member node claims, special transactions,
  staking / NFT operations, producer owner / node keys and nicknames, spent outpoints) for
  eight families of templates that collide on purpose.  TLC explores every sequence of
- MaxOps Append / Remove operations per family (invariants ConflictFree, IndexAgrees,
- OneOwner) and prints one behaviour per edge; harness/cmd/poolkeys builds every template as
- a real transaction and replays the behaviours on a real mempool.TxPool (VerifyTx + AppendTx,
- CleanSubmittedTransactions), comparing after every step the verdict (both directions are
- violations) and the complete content of every conflict slot with the spec's index.
+ MaxOps (quick 3, thorough 4) Append / Remove operations per family (invariants ConflictFree,
+ IndexAgrees, OneOwner) and prints one behaviour per edge; harness/cmd/poolkeys builds every
+ template as a real transaction and replays the behaviours on a real mempool.TxPool (VerifyTx
+ + AppendTx, CleanSubmittedTransactions), comparing after every step the verdict (both
+ directions are violations) and the complete content of every conflict slot with the spec's
+ index (same slots, same keys, every key owned by the expected transaction).
 
  Called from C34.py:   import C34_keys; C34_keys.run_all(chk)
+ (run_all(chk, families=[...]) restricts the run to some families of PoolKeys.tla.)
+
+ Family crtail holds Schnorr CR registrations whose public key ends in the byte of the
+ CHECKSIG / CHECKMULTISIG opcode (strRegisterCRPublicKey used to classify the Schnorr script by
+ its last byte: repaired in /repo, see known_findings.json).
 """
 import concurrent.futures, json, os
 import vf
@@ -108,6 +114,8 @@ def run_all(chk, families=None):
         "PoolKeys: templates of one family interact (%s); MaxOps = 3 operations per behaviour (thorough: 4); NextTurnDPOSInfo "
         "is not removed (the block cleanup handles it through the pool's transaction list); the producers a CancelProducer "
         "names are put into the DPoS state by State.ProcessBlock on their registrations" % ", ".join(FAMILIES),
-        "PoolKeys: slots not exercised: none of conflictmanager.go's 39; UpdateVersion / SideChainPow / RecordSponsor / "
-        "CRAssetsRectify / RechargeToSideChain / TransferCrossChainAsset claim outpoints only (as TransferAsset does)",
+        "PoolKeys: all 39 slots of conflictmanager.go are exercised; transaction kinds without a slot of their own "
+        "(SideChainPow, UpdateVersion, RecordSponsor, CRAssetsRectify, TransferCrossChainAsset, RevertToPOW ...) claim "
+        "outpoints only, as the TransferAsset templates do; multi-signature / Schnorr variants of producer payloads, "
+        "UnregisterCR and ProcessProducer are not separate templates (their key functions do not read the version)",
     ]
